@@ -304,6 +304,9 @@ Delete(t, k)     == Dml(t, DeleteOp(ForUpdate(t), k), FALSE)
 Replace(t, k, x) == RowsOk(t, 1) /\ Dml(t, ReplaceOp(ForUpdate(t), <<<<k, x>>>>), FALSE)
 \* three given rows: the last key first, so that "given order" differs from key order
 Replace3(t, k, x) == RowsOk(t, 3) /\ Dml(t, ReplaceOp(ForUpdate(t), <<<<k + 2, x>>, <<k, x + 1>>, <<k + 1, x>>>>), FALSE)
+\* two given rows with one key: the row of that key (if there is one) is rewritten, once, and neither given row is appended;
+\* without such a row both are appended, in the given order
+ReplaceDup(t, k, x) == RowsOk(t, 2) /\ Dml(t, ReplaceOp(ForUpdate(t), <<<<k, x>>, <<k, x + 1>>>>), FALSE)
 InsertSel(t, u)  == RowsOk(t, Len(Seen(u).rows)) /\ DmlR(t, InsertSelOp(ForUpdate(t), IF u = t THEN ForUpdate(t) ELSE Seen(u)), FALSE, {u} \ {t, TempT}, {})
 InsertCols(t, k) == RowsOk(t, 1) /\ Dml(t, InsertColsOp(ForUpdate(t), k), FALSE)
 \* INSERT INTO t (id, id) VALUES (k, k + 1) : a column cannot receive two values; nothing is inserted
@@ -540,6 +543,7 @@ DoRes(a) ==
        [] a.act = "delete"   -> Delete(a.t, a.k)
        [] a.act = "replace"  -> Replace(a.t, a.k, a.x)
        [] a.act = "replace3" -> Replace3(a.t, a.k, a.x)
+       [] a.act = "replacedup" -> ReplaceDup(a.t, a.k, a.x)
        [] a.act = "addcol"   -> AddCol(a.t)
        [] a.act = "dropcol"  -> DropCol(a.t)
        [] a.act = "renamevu" -> Rename(a.t, "v", "u")
@@ -596,7 +600,7 @@ Actions ==
   \cup {A("insert2", t, k, x) : t \in Tables, k \in Keys, x \in Vals}
   \cup {A(x, t, k, 0) : x \in {"update", "delete"}, t \in Tables, k \in Keys \cup {0}}
   \cup {A("updatefail", t, k, 0) : t \in Tables, k \in Keys}
-  \cup {A(r, t, k, x) : r \in {"replace", "replace3"}, t \in Tables, k \in Keys, x \in Vals}
+  \cup {A(r, t, k, x) : r \in {"replace", "replace3", "replacedup"}, t \in Tables, k \in Keys, x \in Vals}
   \cup {A(x, t, 0, 0) : x \in {"selectsub", "selectagg", "addfirst"}, t \in Tables}
   \cup {A(x, t, k, 0) : x \in {"insertcols", "insertbad2", "insertdup", "addfail"}, t \in Tables, k \in Keys}
   \cup {A2(x, t, u) : x \in {"insertsel", "updatejoin", "deletejoin"}, t \in Tables, u \in Tables \ {NewFile}}
